@@ -1539,6 +1539,64 @@ def badconfig_part(run, runner):
             run.violation("config:invalid-accepted:" + name, "the forbidden configuration %r was accepted: %r, biases after it %d" % (blk, conf, len(cs["steps"])), {"kind": "badconfig", "block": blk})
 
 
+def extl_part(run, r, runner, n):
+    """harmonicWalls on an extended-Lagrangian variable: by default (bypassExtendedLagrangian on) the walls act on the value
+    of the collective variable proper, with bypassExtendedLagrangian off on the extended coordinate.  The closed form and the
+    extracted model are evaluated at the value the option selects (both are reported by the harness)."""
+    cases = []
+    for k in range(n):
+        hl, hu = r.choice([(True, True), (True, False), (False, True)])
+        lo = V.dyadic(r, 0, 2, bits=2)
+        c = {"kind": "walls", "vars": [{"w": r.choice(WIDTHS), "per": False}], "mode": "none", "k": r.choice([0.5, 1.0, 2.0]), "accw": False,
+             "dec": False, "lexp": 1.0, "equil": 0, "it0": 0, "hl": hl, "hu": hu, "lower": [lo], "upper": [lo + V.dyadic(r, 0.5, 2, bits=2)], "lwk": None,
+             "bypass": r.random() < 0.5, "zs": [lo + V.dyadic(r, -2, 4, bits=3) for _ in range(r.randint(3, 6))]}
+        if hl and hu and r.random() < 0.4:
+            c["lwk"], c["uwk"] = r.choice([(1.0, 4.0), (4.0, 1.0), (2.0, 8.0)])
+            c["k"] = None
+        cases.append(c)
+    scn = []
+    for k, c in enumerate(cases):
+        cv = colvar_block(0, c["vars"][0])
+        cv = cv[:3] + ["  extendedLagrangian on", "  extendedFluctuation 0.25", "  extendedTimeConstant 50"] + cv[3:]
+        bl = bias_block(c)
+        if not c["bypass"]:
+            bl = bl[:-1] + ["  bypassExtendedLagrangian off", "}"]
+        scn += ["echo CASE %d" % k, "natoms 1", "temperature 300", "dt 1", "new", "capture", "config EOF"] + cv + bl + ["EOF", "show atomf 0 cv 0 energy 0 bias 0"]
+        for z in c["zs"]:
+            scn += ["pos 1 0 0 %s" % hx(z), "step", "rdump"]
+        scn.append("echo END %d" % k)
+    rc2, iout, e2 = V.run_lines(runner.unit, scn, cwd=runner.scratch)
+    impl = parse_impl(iout)
+    # AX is not kept by parse_impl: read it from the raw lines
+    mlines, ds, where = [], [], []
+    for k, c in enumerate(cases):
+        cs = impl.get(k)
+        run.dist("walls:extended-lagrangian:bypass-%s" % ("on" if c["bypass"] else "off"))
+        rp = {"kind": "extl", "case": c}
+        if cs is None or not cs["complete"] or len(cs["steps"]) != len(c["zs"]) or any("err=ok" not in l for l in cs["config"]):
+            run.mismatch("walls-extended", c, ((cs or {}).get("config", []) + (cs or {}).get("raw", []))[-3:], "complete run")
+            continue
+        ax = [float.fromhex(parse_fields(l)["AX"]) for l in cs["raw"] if l.startswith("RD ")]
+        vals = []
+        moved = False
+        for z, a, o in zip(c["zs"], ax, cs["steps"]):
+            if a != z:
+                run.violation("harness:actual-value", "the variable proper is %r, imposed %r" % (a, z), rp)
+            moved = moved or o["X"][0] != a
+            vals.append(a if c["bypass"] else o["X"][0])
+        c2 = dict(c, events=[("S", [v_]) for v_ in vals])
+        ml, d = model_case(c2, runner.wallsinit)
+        for sig, text in oracle(c2, d, cs["steps"]):
+            run.violation(sig + ":extended-lagrangian", "bypassExtendedLagrangian %s, walls act on %r (extended coordinate %r, variable %r): %s" % ("on" if c["bypass"] else "off", vals, [o["X"][0] for o in cs["steps"]], ax, text), rp)
+        mlines.append(ml); ds.append(d); where.append((c2, cs))
+        run.count("extl%d" % k, moved)
+    rc, mout, e = V.run_lines(runner.model, mlines)
+    for (c2, cs), d, line, mlc in zip(where, ds, mout, mlines):
+        bad = compare(c2, d, parse_model_line(line), cs["steps"])
+        if bad:
+            run.mismatch("walls-extended", {"case": c2, "model_case": mlc}, bad, "agreement")
+
+
 def tsf_part(run, runner):
     """timeStepFactor f > 1: the bias is updated every f steps.  Continuous schedules are evaluated at the updated steps
     (and are stale in between, by design); staged schedules test exact step numbers and miss them (recorded finding)."""
@@ -1793,6 +1851,7 @@ def check(run):
     script_part(run, r, runner, 30 if quick else 600)
     traj_part(run, r, runner, 30 if quick else 600)
     badconfig_part(run, runner)
+    extl_part(run, r, runner, 30 if quick else 800)
     tsf_part(run, runner)
     ti_part(run, r, runner, 40 if quick else 1500)
     run.cov["correspondence"].update({"scenarios": len(cases), "regression_scenarios": len(wit)})
